@@ -294,3 +294,15 @@ pub trait IntegerSquareRoot: Sized { fn integer_sqrt(&self) -> Self; }
 impl IntegerSquareRoot for u128 {
     #[verifier::external_body] fn integer_sqrt(&self) -> (r: u128) ensures (r as nat) * (r as nat) <= *self as nat, (*self as nat) < (r as nat + 1) * (r as nat + 1) { unimplemented!() }
 }
+
+// ---- factory-side queries and reply parsing: ASSUMED ----
+pub uninterp spec fn native_decimals_of(w: World, factory: Seq<char>, denom: Seq<char>) -> Option<u8>;   // the factory's NativeTokenDecimals query (None: unregistered)
+#[verifier::external_body] pub fn query_native_decimals(querier: &QuerierWrapper, factory_contract: Addr, denom: String) -> (r: StdResult<u8>)
+    ensures r is Ok ==> native_decimals_of(querier.world(), factory_contract.0@, denom@) == Some(r->Ok_0),
+        native_decimals_of(querier.world(), factory_contract.0@, denom@) is None ==> r is Err { unimplemented!() }
+pub struct Reply { pub id: u64, pub dummy: u8 }
+pub struct MsgInstantiateContractResponse { pub contract_address: String, pub data: Option<Binary> }
+pub struct ParseReplyError { pub dummy: u8 }
+pub uninterp spec fn reply_contract_addr(msg: Reply) -> Seq<char>;    // address of the contract instantiated by the sub-message this reply answers
+#[verifier::external_body] pub fn parse_reply_instantiate_data(msg: Reply) -> (r: Result<MsgInstantiateContractResponse, ParseReplyError>)
+    ensures r is Ok ==> r->Ok_0.contract_address@ == reply_contract_addr(msg) { unimplemented!() }
